@@ -36,6 +36,7 @@ type Solver struct {
 	timeout int
 	dead    bool
 	LastErr string
+	syncN   int
 }
 
 func Start(kind string, timeoutMs int) (*Solver, error) {
@@ -84,8 +85,6 @@ func (s *Solver) start() error {
 }
 
 func (s *Solver) preamble() {
-	s.raw("(set-option :print-success true)\n")
-	s.pending++
 	if s.Kind == "cvc5" {
 		s.Cmd("(set-logic ALL)")
 	} else {
@@ -114,8 +113,15 @@ func (s *Solver) flush() error {
 	if s.dead {
 		return fmt.Errorf("solver dead")
 	}
+	if s.pending == 0 && s.buf.Len() == 0 {
+		return nil
+	}
+	s.syncN++
+	mark := fmt.Sprintf("SYNC-%d", s.syncN)
+	s.buf.WriteString("(echo \"" + mark + "\")\n")
 	txt := s.buf.String()
 	s.buf.Reset()
+	s.pending = 0
 	if s.Log != nil {
 		io.WriteString(s.Log, txt)
 	}
@@ -124,19 +130,22 @@ func (s *Solver) flush() error {
 		return err
 	}
 	var firstErr error
-	for s.pending > 0 {
+	for {
 		line, err := s.readResp()
 		if err != nil {
 			s.dead = true
 			return err
 		}
-		s.pending--
-		if line != "success" {
-			s.Errors++
-			s.LastErr = line
-			if firstErr == nil {
-				firstErr = fmt.Errorf("solver: %s", line)
-			}
+		if strings.Trim(line, "\"") == mark {
+			break
+		}
+		if line == "success" {
+			continue
+		}
+		s.Errors++
+		s.LastErr = line
+		if firstErr == nil {
+			firstErr = fmt.Errorf("solver: %s", line)
 		}
 	}
 	return firstErr
@@ -330,18 +339,9 @@ func (s *Solver) Reset() error {
 		s.Close()
 		return s.start()
 	}
+	// queued commands were never sent: dropping them cannot desynchronise
 	s.buf.Reset()
-	if s.pending != 0 {
-		s.Close()
-		return s.start()
-	}
-	if s.Kind == "cvc5" {
-		// cvc5 supports (reset) but then needs set-logic again
-		s.raw("(reset)\n")
-		s.pending++
-		s.preamble()
-		return nil
-	}
+	s.pending = 0
 	s.raw("(reset)\n")
 	s.pending++
 	s.preamble()
